@@ -35,6 +35,14 @@ class _NP:
         a[...] = 1
         return a.view(sx.SArr)
 
+    def array(self, a, *args, **kw):
+        # numpy.array(x) keeps x's dtype: an integer-typed vector stays a truncating buffer
+        if isinstance(a, sx.IntArr):
+            return a.copy().view(sx.IntArr)
+        if isinstance(a, sx.SArr):
+            return a.copy()
+        return numpy.array(a, *args, **kw)
+
     def sign(self, a):
         a = numpy.asarray(a, dtype=object)
         out = numpy.empty(a.shape, dtype=object)
@@ -75,14 +83,20 @@ class StubLR:
         e = sx.cur()
         k = sum(1 for r in StubLR.log if r[0] == "fit")
         beta = sx.sarr([e.real(f"beta_{k}_{j}") for j in range(X.shape[1])])
-        StubLR.log.append(("fit", X, y, sample_weight, beta))
+        # snapshot: the caller may refresh its weight buffer in place afterwards
+        StubLR.log.append(("fit", X, y, None if sample_weight is None else sample_weight.copy(), beta))
         self.coef_ = beta
         if StubLR.stop_after is not None and k + 1 >= StubLR.stop_after:
             raise _StopFit()
         return self
 
 
-def _mk(qr, q, **kw):
+def _mk(qr, q, via_set_params=False, **kw):
+    if via_set_params:
+        # built with the defaults (quantile 0.5), configured afterwards -- what clone().set_params(...) of a grid does
+        est = qr.QuantileLinearRegression()
+        est.set_params(quantile=q, **kw)
+        return est
     est = qr.QuantileLinearRegression(quantile=q, **kw)
     return est
 
@@ -192,7 +206,7 @@ def run_fit(cfg):
             for i in range(n):
                 e.assume(w[i] > 0)
         Xc, yc, wc = X.copy(), y.copy(), None if w is None else w.copy()
-        est = _mk(qr, q, fit_intercept=icpt, positive=positive, max_iter=max_iter, delta=delta)
+        est = _mk(qr, q, via_set_params=bool(cfg.get("setp")), fit_intercept=icpt, positive=positive, max_iter=max_iter, delta=delta)
         StubLR.log = []
         StubLR.stop_after = cfg.get("stop_after")
         old = qr.numpy, qr.LinearRegression
@@ -325,7 +339,7 @@ def replay_fit(cfg, inputs, label):
             calls.append(("beta", numpy.array(self.coef_, dtype=float)))
             return r
 
-    est = qr.QuantileLinearRegression(quantile=q, fit_intercept=cfg["icpt"], positive=cfg["positive"], max_iter=max(2, cfg["max_iter"]), delta=delta)
+    est = _mk(qr, q, via_set_params=bool(cfg.get("setp")), fit_intercept=cfg["icpt"], positive=cfg["positive"], max_iter=max(2, cfg["max_iter"]), delta=delta)
     old = qr.LinearRegression
     qr.LinearRegression = Rec
     try:
@@ -415,7 +429,7 @@ def run_rep(cfg):
 
         class Fixed(StubLR):
             def fit(self, Xm, yy, sample_weight=None):
-                StubLR.log.append(("fit", Xm, yy, sample_weight, sx.sarr(b0)))
+                StubLR.log.append(("fit", Xm, yy, None if sample_weight is None else sample_weight.copy(), sx.sarr(b0)))
                 self.coef_ = sx.sarr(b0)
                 return self
 
@@ -424,7 +438,8 @@ def run_rep(cfg):
         old = qr.numpy, qr.LinearRegression
         qr.numpy, qr.LinearRegression = _NP(), Fixed
         try:
-            for est, (Xa, ya, wa) in zip(ests, ((X, y, sx.sarr(mult)), (X[rep_index], y[rep_index], None))):
+            # multiplicities are an INTEGER-typed vector, as a caller holding counts passes them
+            for est, (Xa, ya, wa) in zip(ests, ((X, y, sx.int_array(mult)), (X[rep_index], y[rep_index], None))):
                 StubLR.log = []
                 est.fit(Xa, ya, sample_weight=wa)
                 outs.append([r for r in StubLR.log if r[0] == "fit"])
@@ -457,7 +472,7 @@ def replay_rep(cfg, inputs, label=None):
     rng = numpy.random.RandomState(1)
     X = rng.rand(8, 1) * 4
     y = rng.rand(8) * 3 + X[:, 0]
-    m = numpy.array((mult * 8)[:8], dtype=float)
+    m = numpy.array((mult * 8)[:8], dtype=numpy.int64)
     idx = [i for i in range(8) for _ in range(int(m[i]))]
     q = float(inputs.get("q", Fraction(1, 4)))
     a = qr.QuantileLinearRegression(quantile=q, max_iter=30).fit(X, y, sample_weight=m)
@@ -500,6 +515,8 @@ def configs(tier):
             for icpt in (True, False):
                 for half in (False, True):
                     out.append(dict(kind="fit", n=n, d=n, weighted=weighted, icpt=icpt, positive=False, half=half, max_iter=2, design="identity", stop_after=2))
+    for n in (1, 2):
+        out.append(dict(kind="fit", n=n, d=n, weighted=True, icpt=True, positive=False, half=False, max_iter=2, design="identity", stop_after=2, setp=True))
     # the whole loop (exit test lastE == E, n_iter_, final coefficients) on one row
     for weighted in (False, True):
         out.append(dict(kind="fit", n=1, d=1, weighted=weighted, icpt=True, positive=False, half=False, max_iter=2, design="identity"))
